@@ -197,7 +197,7 @@ func init() {
 	register(&Prop{
 		ID: "C14", Gen: genC14, Exec: execC14,
 		Nontrivial: func(p Plan, r Result) bool { return len(p.Conns) >= 2 },
-		Rule:       "2-64 connections (main and batch port, text and binary), each running a closed-loop random command sequence incl. failing commands (error replies with bodies) on its own private keys, on every orchestrator (L1-only, L1/L2, batch port; with and without the shared lock set) x L1 handler {direct, chunked, batched pool} x L2 handler {direct, batched pool}. The kernel chooses among client sends, lock grants, individual backend requests and reply segments (uniform or depth-first-sticky); clock ticks drive the pool's batch delay. Every sync.Pool of rend runs in poison mode: an object is overwritten with 0xA5 when it is returned, so a header or buffer touched after Put yields a wrong length or status on the spot, and a double Put is reported. In a third of the runs one or two connections are ghosts: they pipeline all their requests (ending with commands that fail) and disconnect without reading, in EPIPE or silent write mode. Oracle: each (non-ghost) connection's replies equal the reference map's for its own sequence alone, no hang, no pool misuse. The literal data-race clause (Go memory model) is outside what a serialising simulator can see; it is not claimed by this check. Non-trivial = at least two connections; distinct = distinct plan hash",
+		Rule:       "2-64 connections (main and batch port, text and binary), each running a closed-loop random command sequence incl. failing commands (error replies with bodies) on its own private keys, on every orchestrator (L1-only, L1/L2, batch port; with and without the shared lock set) x L1 handler {direct, chunked, batched pool} x L2 handler {direct, batched pool}. The kernel chooses among client sends, lock grants, individual backend requests and reply segments (uniform or depth-first-sticky); clock ticks drive the pool's batch delay. Every sync.Pool of rend runs in poison mode: an object is overwritten with 0xA5 when it is returned, so a header or buffer touched after Put yields a wrong length or status on the spot, and a double Put is reported. In a third of the runs one or two connections are ghosts: they pipeline all their requests (ending with commands that fail) and disconnect without reading, in EPIPE or silent write mode, half of them after a stream that is cut at a chosen byte (in the middle of a request). Oracle: each (non-ghost) connection's replies equal the reference map's for its own sequence alone, no hang, no pool misuse. The literal data-race clause (Go memory model) is outside what a serialising simulator can see; it is not claimed by this check. Non-trivial = at least two connections; distinct = distinct plan hash",
 		Real:       append(append([]string{}, realFullStack...), "handlers/memcached/chunked", "handlers/memcached/batched", "protocol/binprot pools (in poison mode)"),
 		Stub:       append(append([]string{}, stubFullStack...), "sync.Pool: deterministic LIFO free list that poisons on Put"),
 		RaceTest:   "TestRaceServer",
